@@ -9,4 +9,5 @@ for g in tools/gen/*.py; do [ -f "$g" ] && python3 "$g" --repo "$(cd .. && pwd)/
 (cd coq && rm -f _CoqProject Makefile.coq Makefile.coq.conf && timeout 3000 ./mk.sh)
 [ -f harness/Cargo.lock ] || cp ../repo/Cargo.lock harness/Cargo.lock
 (cd harness && RUSTFLAGS="--cfg rip_verif" timeout 3000 cargo build --offline --bins)
+(RUSTFLAGS="--cfg rip_verif" CARGO_TARGET_DIR="$(pwd)/harness/target-cli" timeout 3000 cargo build --offline --manifest-path ../repo/Cargo.toml -p rip-cli --bin rip)
 echo "setup ok"
